@@ -134,3 +134,78 @@ impl Drop for Arena {
         }
     }
 }
+
+/// Valgrind client requests (no-ops when not running under valgrind): used to
+/// make the bytes in front of a heap-placed haystack inaccessible, so that a
+/// read *before* an unaligned start is reported byte-exactly.
+#[cfg(target_arch = "x86_64")]
+#[inline(never)]
+fn valgrind_request(req: usize, a1: usize, a2: usize) -> usize {
+    let args: [usize; 6] = [req, a1, a2, 0, 0, 0];
+    let mut result: usize = 0;
+    unsafe {
+        core::arch::asm!(
+            "rol rdi, 3",
+            "rol rdi, 13",
+            "rol rdi, 61",
+            "rol rdi, 51",
+            "xchg rbx, rbx",
+            inout("rdx") result,
+            in("rax") args.as_ptr(),
+            options(nostack),
+        );
+    }
+    result
+}
+
+#[cfg(not(target_arch = "x86_64"))]
+fn valgrind_request(_req: usize, _a1: usize, _a2: usize) -> usize {
+    0
+}
+
+const VG_MAKE_MEM_NOACCESS: usize = 0x4d43_0000;
+const VG_MAKE_MEM_DEFINED: usize = 0x4d43_0002;
+
+pub fn vg_noaccess(p: *const u8, n: usize) {
+    if n > 0 {
+        valgrind_request(VG_MAKE_MEM_NOACCESS, p as usize, n);
+    }
+}
+
+pub fn vg_defined(p: *const u8, n: usize) {
+    if n > 0 {
+        valgrind_request(VG_MAKE_MEM_DEFINED, p as usize, n);
+    }
+}
+
+/// A heap block of exactly `a + data.len()` bytes with the data at offset `a`
+/// and (under valgrind) the `a` bytes in front of it marked inaccessible.
+pub struct HeapSlice {
+    v: Vec<u8>,
+    a: usize,
+}
+
+impl HeapSlice {
+    pub fn empty() -> HeapSlice {
+        HeapSlice { v: Vec::new(), a: 0 }
+    }
+
+    pub fn place(&mut self, a: usize, data: &[u8], fill: u8) -> &[u8] {
+        // make the old prefix accessible again before the block is freed
+        vg_defined(self.v.as_ptr(), self.a);
+        let mut v: Vec<u8> = Vec::with_capacity(a + data.len());
+        v.extend(std::iter::repeat(fill).take(a));
+        v.extend_from_slice(data);
+        assert_eq!(v.capacity(), a + data.len());
+        vg_noaccess(v.as_ptr(), a);
+        self.v = v;
+        self.a = a;
+        unsafe { std::slice::from_raw_parts(self.v.as_ptr().add(a), data.len()) }
+    }
+}
+
+impl Drop for HeapSlice {
+    fn drop(&mut self) {
+        vg_defined(self.v.as_ptr(), self.a);
+    }
+}
